@@ -19,6 +19,11 @@ for n in names:
             t=time.time()
             p=subprocess.run(['./run.sh',prop,os.environ.get('TIER','quick')],capture_output=True,text=True)
             sigs=[l.split('sig=')[1].split(' ::')[0] for l in p.stdout.splitlines() if 'violated:' in l]
+            # keep the first shrunk case as a committed regression input (it passes on the unchanged tree)
+            reps=[l.split('replay=')[1].strip() for l in p.stdout.splitlines() if l.startswith('VIOLATION ')]
+            if reps and os.environ.get('KEEP_REPLAYS','1')=='1' and os.path.exists(reps[0]) and os.path.getsize(reps[0])<200_000:
+                os.makedirs(f'replays/{prop}',exist_ok=True)
+                import shutil; shutil.copy(reps[0], f'replays/{prop}/{n}.json')
             r[prop]={'rc':p.returncode,'sigs':sigs[:4],'wall_s':round(time.time()-t,1)}
             print(n,prop,'rc',p.returncode,sigs[:2])
         res[n]={'property':meta['property'],'results':r,'caught':r[meta['property']]['rc']==1}
